@@ -3,17 +3,19 @@
    numpy's Generator.choice(a, size, p) computes  cdf = cumsum(p); cdf /= cdf[-1];
    idx = cdf.searchsorted(rng.random(size), side='right')  — the index of the first cumulative bound
    exceeding the uniform.  The PRNG is not modelled: the uniforms are the model's input. *)
-From Coq Require Import QArith Qabs Lqa List Bool Arith Lia.
+From Coq Require Import QArith Qabs Qreduction Lqa List Bool Arith Lia.
 From QV Require Import Core.Bits Core.Pauli.
 Import ListNotations.
 Open Scope Q_scope.
+Arguments Qred : simpl never.
 
 Fixpoint qsum (l : list Q) : Q := match l with [] => 0 | x :: r => x + qsum r end.
 Definition psum (d : list Q) (k : nat) : Q := qsum (firstn k d).     (* p_0 + ... + p_{k-1} *)
 Fixpoint cumsum_from (acc : Q) (l : list Q) : list Q :=
   match l with [] => [] | x :: r => (acc + x) :: cumsum_from (acc + x) r end.
 Definition cumsum : list Q -> list Q := cumsum_from 0.
-Definition cdf (d : list Q) : list Q := let c := cumsum d in let t := last c 0 in map (fun x => x / t) c.
+(* Qred = reduction to lowest terms (Qred q == q); it only keeps the numerals small *)
+Definition cdf (d : list Q) : list Q := let c := cumsum d in let t := last c 0 in map (fun x => Qred (x / t)) c.
 Definition qltb (x y : Q) : bool := negb (Qle_bool y x).
 Fixpoint first_gt (u : Q) (c : list Q) : nat :=
   match c with [] => 0%nat | x :: r => if qltb u x then 0%nat else S (first_gt u r) end.
@@ -21,11 +23,13 @@ Definition choice (d : list Q) (u : Q) : nat := first_gt u (cdf d).
 
 (* rng.choice(('I','X','Y','Z'), size=n, p=dist) then pauli_to_bsf *)
 Definition letter_of (k : nat) : pl := match k with 0%nat => pI | 1%nat => pX | 2%nat => pY | _ => pZ end.
-Definition gen_letters (d : list Q) (us : list Q) : pstr := map (fun u => letter_of (choice d u)) us.
+Definition gen_letters (d : list Q) (us : list Q) : pstr :=
+  let c := cdf d in map (fun u => letter_of (first_gt u c)) us.   (* = map (letter_of o choice d) us, cdf computed once *)
 Definition generate (d : list Q) (us : list Q) : bsf := to_bsf (gen_letters d us).
 (* rng.choice((0, 1), size=m, p=(1 - q, q)) *)
 Definition flip (q u : Q) : bool := Nat.eqb (choice [1 - q; q] u) 1.
-Definition flips (q : Q) (us : list Q) : bsf := map (flip q) us.
+Definition flips (q : Q) (us : list Q) : bsf :=
+  let c := cdf [1 - q; q] in map (fun u => Nat.eqb (first_gt u c) 1) us.   (* = map (flip q) us *)
 (* one time step of _run_once: n uniforms for the error; m uniforms for the syndrome flips, drawn only when
    the measurement error probability is truthy (otherwise zeros and the stream is untouched) *)
 Definition step (n m : nat) (d : list Q) (q : Q) (us : list Q) : bsf * bsf * list Q :=
@@ -102,8 +106,8 @@ Lemma nth_cdf d k : (k < length d)%nat -> nth k (cdf d) 0 == psum d (S k) / qsum
 Proof.
   intros Hk. assert (Hd : d <> []) by (destruct d; [cbn in Hk; lia|discriminate]).
   unfold cdf, cumsum. cbv zeta.
-  rewrite (nth_map_in (fun x => x / last (cumsum_from 0 d) 0) _ k 0 0) by (now rewrite cumsum_from_length).
-  rewrite nth_cumsum_from by exact Hk. rewrite last_cumsum_from by exact Hd.
+  rewrite (nth_map_in (fun x => Qred (x / last (cumsum_from 0 d) 0)) _ k 0 0) by (now rewrite cumsum_from_length).
+  rewrite Qred_correct. rewrite nth_cumsum_from by exact Hk. rewrite last_cumsum_from by exact Hd.
   unfold psum. setoid_replace (0 + qsum d) with (qsum d) by ring.
   setoid_replace (0 + qsum (firstn (S k) d)) with (qsum (firstn (S k) d)) by ring. reflexivity.
 Qed.
@@ -183,7 +187,7 @@ Theorem generate_length d us : length (generate d us) = (2 * length us)%nat.
 Proof. unfold generate, gen_letters. now rewrite to_bsf_length, map_length. Qed.
 Theorem gen_letters_local d us j : (j < length us)%nat ->
   nth j (gen_letters d us) pI = letter_of (choice d (nth j us 0)).
-Proof. intros Hj. unfold gen_letters. now rewrite (nth_map_in _ us j pI 0 Hj). Qed.
+Proof. intros Hj. unfold gen_letters. cbv zeta. now rewrite (nth_map_in _ us j pI 0 Hj). Qed.
 (* qubit j depends on the j-th uniform only *)
 Theorem gen_letters_independent d us us' j : length us = length us' -> (j < length us)%nat ->
   nth j us 0 = nth j us' 0 -> nth j (gen_letters d us) pI = nth j (gen_letters d us') pI.
@@ -237,7 +241,7 @@ Proof. intros Hq Hu. apply (flip_interval q u); lra. Qed.
 Theorem flips_length q us : length (flips q us) = length us.
 Proof. apply map_length. Qed.
 Theorem flips_local q us j : (j < length us)%nat -> nth j (flips q us) false = flip q (nth j us 0).
-Proof. intros Hj. unfold flips. apply nth_map_in. exact Hj. Qed.
+Proof. intros Hj. unfold flips. cbv zeta. now rewrite (nth_map_in _ us j false 0 Hj). Qed.
 
 (* ---- the stream layout of a fault-tolerant run ---- *)
 Lemma skipn_add {A} (l : list A) : forall a b, skipn a (skipn b l) = skipn (b + a) l.
